@@ -34,13 +34,14 @@ func withAnchors(c *Ctx, f func(a *serverAnchors)) {
 
 func init() {
 	register("C01",
-		"Decides, on every control-flow path, the mechanism that makes one-fetch-per-unknown-key possible: the lookup's transition relation over four abstract entry states (only the unknown state becomes fetching, exactly the requests that find it fetching are registered as waiters and get the registered channel, a hit returns the stored response), the locked wrapper (lookup under the write lock; a woken waiter re-evaluates under the lock), get-or-create of the entry in one shard critical section, the shard function, the cache middleware forwarding only non-hit states exactly once, a persisted record being loaded inside the locked lookup only (never applied over a state another request has already advanced), a reload keeping every surviving cache's entries (an in-flight fetch stays the key's only fetch), and the stored expiry being the clock plus a positive lifetime (an entry stored already expired makes every waiter the next fetcher). The schedule quantifier itself (that the Go runtime, given these shapes, yields one fetch on every interleaving) is not decided.",
+		"Decides, on every control-flow path, the mechanism that makes one-fetch-per-unknown-key possible: the lookup's transition relation over four abstract entry states (only the unknown state becomes fetching, exactly the requests that find it fetching are registered as waiters and get the registered channel, a hit returns the stored response), the locked wrapper (lookup under the write lock; a woken waiter re-evaluates under the lock), get-or-create of the entry in one shard critical section, the shard function, the cache middleware forwarding only non-hit states exactly once, a persisted record being loaded inside the locked lookup only (never applied over a state another request has already advanced), a reload keeping every surviving cache's entries (an in-flight fetch stays the key's only fetch), a fetcher whose downstream call succeeded publishing the response as cacheable unless no lifetime or no response was recorded, and the stored expiry being the clock plus a positive lifetime (an entry stored already expired makes every waiter the next fetcher). The schedule quantifier itself (that the Go runtime, given these shapes, yields one fetch on every interleaving) is not decided.",
 		nil, func(c *Ctx) {
 			withAnchors(c, func(a *serverAnchors) {
+				ruleResetPrunes(c, "cache")
 				ruleLookup(c, a.cacheA, set("lookup-shape", "state-determined", "no-exit-unknown", "fetching-only-from-unknown", "registration", "returned-status", "hit-data", "invariant-waiters", "no-waiter-dropped", "load-on-first-lookup", "load-only-when-unknown"))
 				ruleKeepCache(c)
 				ruleLockedWrapper(c, a.cacheA)
-				ruleCacheMiddleware(c, a, set("hit-does-not-forward", "hit-serves-stored", "forward-once", "entry-of-request-key", "completion-only-by-fetcher"))
+				ruleCacheMiddleware(c, a, set("hit-does-not-forward", "hit-serves-stored", "forward-once", "entry-of-request-key", "completion-only-by-fetcher", "cacheable-is-stored"))
 				ruleProxyMiddleware(c, a, set("forward-once"))
 				ruleCompletionPaths(c, a.cacheA, set("expiry-value", "ttl-positive", "no-wrap"))
 				ruleGetOrCreate(c)
@@ -51,7 +52,7 @@ func init() {
 			})
 		})
 	register("C02",
-		"Decides that a wake-up cannot be lost or withheld by construction: every function that stores a terminal status reaches, on every return path, an exhaustive loop of blocking sends over the previous waiter list and clears the list, under the entry's write lock; the data invariant (not fetching => no waiters; unknown/fetching => no expiry) is inductive over the lookup, so no registered waiter is ever dropped; the fetcher's ticket is discharged exactly once on normal, error and downstream-panic exits of the cache middleware, and nothing before it in the deferred completion can panic on a registry lookup that came back nil; the waiter's receive is a plain receive with no lock held; a configured proxy timeout reaches the upstream call. Liveness under the real scheduler is not decided.",
+		"Decides that a wake-up cannot be lost or withheld by construction: every function that stores a terminal status reaches, on every return path, an exhaustive loop of blocking sends over the previous waiter list and clears the list, under the entry's write lock; the data invariant (not fetching => no waiters; unknown/fetching => no expiry) is inductive over the lookup, so no registered waiter is ever dropped; the fetcher's ticket is discharged exactly once on normal, error and downstream-panic exits of the cache middleware, and nothing before it in the deferred completion can panic on a registry lookup that came back nil; the waiter's receive is a plain receive with no lock held; a configured proxy timeout reaches the upstream call; neither the client-facing server nor the upstream transport carries a deadline or cap that cuts a waiting request off. Liveness under the real scheduler is not decided.",
 		nil, func(c *Ctx) {
 			withAnchors(c, func(a *serverAnchors) {
 				ruleDrainShape(c, a.cacheA)
@@ -60,6 +61,7 @@ func init() {
 				ruleCompletionPaths(c, a.cacheA, set("completes-on-every-path", "locked"))
 				ruleLookup(c, a.cacheA, set("state-determined", "invariant-expiry", "invariant-waiters", "no-waiter-dropped", "no-exit-unknown", "registration"))
 				ruleLookupNilChecked(c)
+				ruleTransportUnbounded(c)
 				ruleStoreLoadAtomic(c, a.cacheA)
 				ruleLockedWrapper(c, a.cacheA)
 				ruleCacheMiddleware(c, a, set("ticket-discharge", "completion-only-by-fetcher"))
@@ -99,13 +101,14 @@ func init() {
 			})
 		})
 	register("C07",
-		"Decides, for all configured periods: a lookup in hit-for-pass state is never queued and never served a response; the marker always gets a period >= 1 (the default when the configured one is <= 0) added to the clock; it lapses through the same expiry test as hits, and that test keeps the entry through its expiry second (expired iff expiredAt < now), so the period is not cut short; the configured period is what the fetcher passes and is kept in seconds (never a time.Duration squeezed into the int); the record is saved only after the entry's final state is set, and always when a store is configured (a marker without a response included); non-fetcher requests never complete (extend) the entry; hit-for-pass requests are forwarded once and reach the upstream with their headers untouched; the upstream transport puts no cap on connections per host (forwarded requests do not queue behind one another inside net/http). Timed histories are not decided.",
+		"Decides, for all configured periods: a lookup in hit-for-pass state is never queued and never served a response; the marker always gets a period >= 1 (the default when the configured one is <= 0) added to the clock; it lapses through the same expiry test as hits, and that test keeps the entry through its expiry second (expired iff expiredAt < now), so the period is not cut short; the configured period is converted per cache (no value carried over from the previous cache's conversion), is what the fetcher passes and is kept in seconds (never a time.Duration squeezed into the int); the record is saved only after the entry's final state is set, and always when a store is configured (a marker without a response included); non-fetcher requests never complete (extend) the entry; hit-for-pass requests are forwarded once and reach the upstream with their headers untouched; the upstream transport puts no cap on connections per host (forwarded requests do not queue behind one another inside net/http). Timed histories are not decided.",
 		nil, func(c *Ctx) {
 			withAnchors(c, func(a *serverAnchors) {
 				ruleLookup(c, a.cacheA, set("state-determined", "registration", "hit-data", "expiry-applied", "expiry-exact", "invariant-expiry", "returned-status"))
 				ruleCompletionPaths(c, a.cacheA, set("completes-on-every-path", "ttl-positive", "expiry-value", "persist-final"))
 				rulePeriodUnits(c)
 				ruleSaveUnconditional(c, a.cacheA)
+				ruleConverterPerItem(c)
 				ruleLookupNilChecked(c)
 				ruleCacheMiddleware(c, a, set("ticket-discharge", "hit-for-pass-period", "completion-only-by-fetcher", "forward-once"))
 				ruleProxyMiddleware(c, a, set("withheld-on-fetch", "lifetime-plumbing"))
@@ -136,7 +139,7 @@ func init() {
 				ruleStoreKeyAgreement(c)
 				ruleStoreExactKey(c)
 				ruleStoreRegistryKey(c)
-				ruleCacheMiddleware(c, a, set("hit-age", "hit-serves-stored"))
+				ruleCacheMiddleware(c, a, set("hit-age", "hit-serves-stored", "store-gate"))
 				ruleResponder(c, a)
 				ruleRawProvenance(c)
 			})
@@ -150,7 +153,8 @@ func init() {
 				ruleCompletionPaths(c, a.cacheA, set("completes-on-every-path"))
 				ruleCacheMiddleware(c, a, set("ticket-discharge"))
 				ruleLookupNilChecked(c)
-				ruleDecoderStateless(c)
+				ruleDecoderStateless(c, map[string]bool{"cache": true})
+				ruleStringersTotal(c)
 				ruleDrainShape(c, a.cacheA)
 				rulePurge(c, a.cacheA)
 				ruleDecodersNoPanic(c, map[string]bool{"cache": true})
@@ -187,6 +191,7 @@ func init() {
 		[]string{"groupcache/lru: MaxEntries == 0 means no limit; Add evicts the oldest entry beyond MaxEntries"}, func(c *Ctx) {
 			withAnchors(c, func(a *serverAnchors) {
 				ruleCapacity(c)
+				ruleLockset(c)
 				ruleResetPrunes(c, "cache")
 				ruleLocksNotCopied(c)
 				ruleEntryContainers(c, a.cacheA)
@@ -197,11 +202,12 @@ func init() {
 			})
 		})
 	register("C18",
-		"Decides that a purge removes the key from the shard the lookup consults (same shard function, whole key) on every path and deletes the persisted record whenever a store is configured; the unnamed form visits every cache and never stops early, the named form touches one; the package-level purge hands (cache name, key) unchanged to the one default registry; each back end deletes the record its Get and Set address; a purge writes no entry state and takes no entry lock, so it can neither block on nor strand an in-flight fetch. The history clause about a purge racing a fetch that later re-persists is not decided.",
+		"Decides that a purge removes the key from the shard the lookup consults (same shard function, whole key) on every path and deletes the persisted record whenever a store is configured; the unnamed form visits every cache and never stops early, the named form touches one; the package-level purge hands (cache name, key) unchanged to the one default registry; each back end deletes the record its Get and Set address; a purge writes no entry state and takes no entry lock, so it can neither block on nor strand an in-flight fetch; an entry enters a shard's LRU only from the function that has just constructed it, so a purged entry is never put back by its fetcher. The history clause about a purge racing a fetch that later re-persists is not decided.",
 		nil, func(c *Ctx) {
 			withAnchors(c, func(a *serverAnchors) {
 				rulePurge(c, a.cacheA)
 				rulePurgeAll(c)
+				ruleLRUAddFresh(c)
 				ruleStoreWriteOrdered(c)
 				ruleAdminPurge(c)
 				ruleStoreKeyAgreement(c)
@@ -213,7 +219,7 @@ func init() {
 			})
 		})
 	register("C05",
-		"Decides label/bytes agreement and provenance on every path: each encoding label handed to a client is paired with the stored variant of that coding, the raw body, or a transcode of the raw body; the raw body is RawBody, else gunzip(GzipBody), else brotli-decode(BrBody); upstream bodies are filed under exactly the variant their encoding names and every other documented encoding is decoded by its own codec; Fill writes label, body, status and header of one negotiation and, after merging the stored header, sets nothing but Content-Encoding; the stored header is a deep copy minus only the fields pike recomputes; pre-compression drops the raw body only when both variants exist; the lz4 destination covers the format's maximum expansion; the five content-coding constants carry the documented wire names; the cache key keeps the request method, so a body-less answer to HEAD is never what a GET is served. Byte-identity of codec round trips is not decidable statically.",
+		"Decides label/bytes agreement and provenance on every path: each encoding label handed to a client is paired with the stored variant of that coding, the raw body, or a transcode of the raw body; the raw body is RawBody, else gunzip(GzipBody), else brotli-decode(BrBody); upstream bodies are filed under exactly the variant their encoding names and every other documented encoding is decoded by its own codec; Fill writes label, body, status and header of one negotiation and, after merging the stored header, sets nothing but Content-Encoding; the stored header is a deep copy minus only the fields pike recomputes; pre-compression drops the raw body only when both variants exist; the lz4 destination covers the format's maximum expansion; the five content-coding constants carry the documented wire names; the upstream transport and the client-facing server set no header-size cap or read/write deadline that would replace the upstream's answer; the cache key keeps the request method, so a body-less answer to HEAD is never what a GET is served. Byte-identity of codec round trips is not decidable statically.",
 		nil, func(c *Ctx) {
 			withAnchors(c, func(a *serverAnchors) {
 				ruleDecisionTable(c)
@@ -230,13 +236,14 @@ func init() {
 				ruleProxyMiddleware(c, a, set("response-built", "location-edits-order", "proxy-deadline"))
 				ruleCacheMiddleware(c, a, set("hit-serves-stored"))
 				rulePrecompress(c, a)
+				ruleTransportUnbounded(c)
 				ruleKey(c)
 				ruleResponder(c, a)
 				ruleContextKeys(c, a)
 			})
 		})
 	register("C13",
-		"Decides the negotiation logic completely: the function from (accept-br, accept-gzip, has-br, has-gzip, should-compress) to (label, body provenance) is extracted from the code's paths and compared with the documented decision list on all 32 cells, with determinism; should-compress is false iff all variants are <= the minimum length and otherwise the content-type filter (default when unset) decides; cacheable responses are compressed once with the best-compression profile before publication and nowhere else; each response carries the server's compress settings, and a live update computes those settings from the option exactly as the constructor does (a removed filter falls back to the default); the filter is compiled with the parser its validator uses. Substring matching of Accept-Encoding tokens and q-values are outside the statement.",
+		"Decides the negotiation logic completely: the function from (accept-br, accept-gzip, has-br, has-gzip, should-compress) to (label, body provenance) is extracted from the code's paths and compared with the documented decision list on all 32 cells, with determinism; should-compress is false iff all variants are <= the minimum length and otherwise the content-type filter (default when unset) decides; cacheable responses are compressed once with the best-compression profile before publication and nowhere else; each response carries the server's compress settings, and a live update computes those settings from the option exactly as the constructor does (a removed filter falls back to the default); the filter is compiled with the parser its validator uses and per server (nothing carried over from the previous server's conversion). Substring matching of Accept-Encoding tokens and q-values are outside the statement.",
 		nil, func(c *Ctx) {
 			withAnchors(c, func(a *serverAnchors) {
 				ruleDecisionTable(c)
@@ -250,11 +257,12 @@ func init() {
 				ruleProxyMiddleware(c, a, set("server-settings"))
 				ruleValidatorsAgree(c)
 				ruleForwarders(c, "compress")
+				ruleConverterPerItem(c)
 				ruleCtorUpdateAgree(c)
 			})
 		})
 	register("C12",
-		"Decides stream finalisation order (the compressing writer is closed on every successful path and the buffer is not read before that), level clamping for every int (the value reaching gzip.NewWriterLevel is in [-2,9], brotli's in [0,11]), propagation of every codec library error, the lz4 destination bound (a short-buffer failure is final only at 255 x input) that the lz4 retry loop has a feasible exit while the short-buffer error persists (no hang on malformed blocks), the decoder dispatch, that pike's own decoder code has no Must* call, explicit panic, allocation sized by an unchecked number taken from the stream or index that is not provably inside the data, that the five decoders are reached under the documented wire names, and that the zstd decoder is built without options that reject valid frames or whose value is taken from the machine (GOMAXPROCS, environment). That the codec libraries are exact inverses for every byte string and themselves never panic on malformed input is behaviour of third-party code: not applicable to static analysis.",
+		"Decides stream finalisation order (the compressing writer is closed on every successful path and the buffer is not read before that), level clamping for every int (the value reaching gzip.NewWriterLevel is in [-2,9], brotli's in [0,11]), propagation of every codec library error, the lz4 destination bound (a short-buffer failure is final only at 255 x input) that the lz4 retry loop has a feasible exit while the short-buffer error persists (no hang on malformed blocks), the decoder dispatch, that pike's own decoder code has no Must* call, explicit panic, allocation sized by an unchecked number taken from the stream or index that is not provably inside the data, that the five decoders are reached under the documented wire names, and that the zstd decoder is built without options that reject valid frames or whose value is taken from the machine (GOMAXPROCS, environment), that encoders write into an empty buffer, and that the stream decoders share no mutable package-level state. That the codec libraries are exact inverses for every byte string and themselves never panic on malformed input is behaviour of third-party code: not applicable to static analysis.",
 		nil, func(c *Ctx) {
 			ruleEncoders(c)
 			ruleLevelApplied(c)
@@ -266,17 +274,20 @@ func init() {
 			ruleForwarders(c, "compress")
 			ruleEncodingNames(c)
 			ruleDecoderOptions(c)
+			ruleWriterBufferEmpty(c)
+			ruleDecoderStateless(c, map[string]bool{"compress": true})
 			ruleDecodersNoPrefilter(c)
 			ruleResultBeforeError(c, map[string]bool{"compress": true})
 			ruleDecodersNoPanic(c, map[string]bool{"compress": true})
 			ruleDecoderBounds(c, map[string]bool{"compress": true})
 		})
 	register("C09",
-		"Decides writer/reader layout agreement for both record types (element kinds, widths, order and the field each element belongs to, every variable-length element preceded by its own length), that every read is bounded (fixed-width reads fail on short input, variable reads are checked against 0 and the remaining length), that no allocation in a decoder is sized by record data and no decoder calls a panicking-by-contract function (Must*) on record data, that every index and fixed-width byte-order read in a decoder is inside the data by the comparisons made before it, that the loader accepts every record the completions write (adoption depends only on status, expiry and the presence of a response, not on its content), that a record cut anywhere fails to decode (the tail is a checked read), that encoded records are freshly allocated, that integer writers and readers agree on width and byte order, that the persisted status numbers are the ones records on disk carry, and that decoding keeps no package-level state (the same record always decodes the same way). Exact value round-trip of contents (e.g. JSON re-encoding of non-UTF-8 header values) is value semantics of libraries and not decided.",
+		"Decides writer/reader layout agreement for both record types (element kinds, widths, order and the field each element belongs to, every variable-length element preceded by its own length), that every read is bounded (fixed-width reads fail on short input, variable reads are checked against 0 and the remaining length), that no allocation in a decoder is sized by record data and no decoder calls a panicking-by-contract function (Must*) on record data, that every index and fixed-width byte-order read in a decoder is inside the data by the comparisons made before it, that the loader accepts every record the completions write (adoption depends only on status, expiry and the presence of a response, not on its content), that a record cut anywhere fails to decode (the tail is a checked read), that encoded records are freshly allocated, that integer writers and readers agree on width and byte order, that the persisted status numbers are the ones records on disk carry, that String() of a decoded status cannot index outside its table, and that decoding keeps no package-level state (the same record always decodes the same way). Exact value round-trip of contents (e.g. JSON re-encoding of non-UTF-8 header values) is value semantics of libraries and not decided.",
 		nil, func(c *Ctx) {
 			ruleLayout(c)
 			ruleWireConstants(c)
-			ruleDecoderStateless(c)
+			ruleDecoderStateless(c, map[string]bool{"cache": true})
+			ruleStringersTotal(c)
 			ruleBoundedReads(c)
 			ruleTruncation(c)
 			ruleEncodedFresh(c)
@@ -289,12 +300,13 @@ func init() {
 			ruleEmptyResponseSection(c)
 		})
 	register("C14",
-		"Decides that Match is exactly (no hosts or host listed) and (no prefixes or some prefix of the URI) and depends on nothing else; that the four specificity classes get strictly increasing, non-zero priorities in the order prefix+host < prefix < host < none; that the list is sorted ascending by that priority (comparator over the very slice being sorted) before it is published under the write lock; that only an element of the sorted list whose name is one of the server's own names and which matches is returned, with the sorted list as the outer loop; that the proxy resolves with the request's Host and request URI and fails with a 5xx before any upstream contact when no location or upstream is found.",
+		"Decides that Match is exactly (no hosts or host listed) and (no prefixes or some prefix of the URI) and depends on nothing else; that the four specificity classes get strictly increasing, non-zero priorities in the order prefix+host < prefix < host < none; that the list is sorted ascending by that priority (comparator over the very slice being sorted) before it is published under the write lock, and is built from the new options alone (nothing kept from the list it replaces); that only an element of the sorted list whose name is one of the server's own names and which matches is returned, with the sorted list as the outer loop; that the proxy resolves with the request's Host and request URI and fails with a 5xx before any upstream contact when no location or upstream is found.",
 		nil, func(c *Ctx) {
 			withAnchors(c, func(a *serverAnchors) {
 				ruleMatch(c)
 				rulePriority(c)
 				ruleSortedPublish(c)
+				ruleLocationsFromOptions(c)
 				ruleNamedOnly(c)
 				ruleForwarders(c, "location")
 				ruleErrorCodes(c)
@@ -325,6 +337,7 @@ func init() {
 		nil, func(c *Ctx) {
 			ruleCtorUpdateAgree(c)
 			ruleConverters(c)
+			ruleConverterPerItem(c)
 			ruleSectionsApplied(c)
 			ruleResetPrunes(c)
 			ruleKeepCache(c)
@@ -347,11 +360,12 @@ func init() {
 			ruleForwarders(c, "cache", "location", "server", "compress")
 		})
 	register("C19",
-		"Decides pike's wiring of the health-checked pool (the pool itself lives in the dependency github.com/vicanso/upstream): servers marked backup are registered as backups and only those, each with its own address; policy and ping path reach the pool exactly as configured (the converter copies them unedited); a health check runs before a pool is published and periodically after; a reload never stops the health check of an instance that stays in service; pike never writes into or appends onto the server list the pool hands out; the proxy target is only what the pool's Next() returned and 'no healthy server' is a 5xx error. The fault-sequence quantifier (up/down timing, recovery, even distribution) is run-time behaviour of the dependency and the network: not applicable.",
+		"Decides pike's wiring of the health-checked pool (the pool itself lives in the dependency github.com/vicanso/upstream): servers marked backup are registered as backups and only those, each with its own address; policy and ping path reach the pool exactly as configured (the converter copies them unedited); a health check runs before a pool is published and periodically after; a reload never stops the health check of an instance that stays in service; pike never writes into or appends onto the server list the pool hands out; the proxy target is only what the pool's Next() returned (no fixed target is configured, and the picker asks the pool for nothing else, so no request runs or waits for a health check) and 'no healthy server' is a 5xx error. The fault-sequence quantifier (up/down timing, recovery, even distribution) is run-time behaviour of the dependency and the network: not applicable.",
 		[]string{"github.com/vicanso/upstream: Next() returns only servers whose last health check passed, backups only when no primary is healthy"}, func(c *Ctx) {
 			withAnchors(c, func(a *serverAnchors) {
 				ruleUpstreamCtor(c)
 				ruleYAMLTable(c)
+				rulePickerOnly(c)
 				rulePoolFields(c)
 				ruleUpstreamContract(c)
 				ruleConverters(c)
@@ -365,7 +379,7 @@ func init() {
 			})
 		})
 	register("C17",
-		"Decides that Validate runs field validation first and checks each of the four reference relations on exactly the (referrer field, referenced name) pair, per referrer, returning its error; that a reference whose run-time lookup can come back nil (the server's cache, the location's upstream) cannot be left empty in an accepted configuration; that the run-time lookups go to the same default registries the reload fills and are made per request with the server's current settings; that each configuration back end reads, writes and watches one and the same location, writes the bytes it is given, and that Read decodes the bytes it read into the configuration it returns; that Write stores the YAML of the configuration only after Validate returned nil and never reports success without writing; that no configuration field is lost or merged by the YAML/JSON field table, the YAML key of every field is its documented (JSON) key and the shipped pike.yml uses known keys only; that the admin handlers write configuration entries back only as copies of the entries they annotate; that every validate tag is registered and every place that leniently parses a configuration field uses the parser its validator uses (including a value the upstream library parses on pike's behalf). Quoting behaviour of the YAML library is not decided.",
+		"Decides that Validate runs field validation first and checks each of the four reference relations on exactly the (referrer field, referenced name) pair, per referrer, returning its error; that a reference whose run-time lookup can come back nil (the server's cache, the location's upstream) cannot be left empty in an accepted configuration; that the run-time lookups go to the same default registries the reload fills and are made per request with the server's current settings; that each configuration back end reads, writes and watches one and the same location, writes the bytes it is given, and that Read decodes the bytes it read into the configuration it returns; that Write stores the YAML of the configuration only after Validate returned nil and never reports success without writing; that no configuration field is lost or merged by the YAML/JSON field table, the YAML key of every field is its documented (JSON) key and the shipped pike.yml uses known keys only; that the admin handlers write configuration entries back only as copies of the entries they annotate; that lists of validated structs are validated element-wise (dive) and Validate never reports success from inside one of its loops; that no back-end method rewrites the configured location before using it; that every validate tag is registered and every place that leniently parses a configuration field uses the parser its validator uses (including a value the upstream library parses on pike's behalf). Quoting behaviour of the YAML library is not decided.",
 		nil, func(c *Ctx) {
 			ruleValidateRefs(c)
 			ruleRequiredRefs(c)
@@ -379,6 +393,8 @@ func init() {
 			ruleWriteValidates(c)
 			ruleYAMLTable(c)
 			ruleAnnotatePreserves(c)
+			ruleDiveTags(c)
+			ruleValidateVisitsAll(c)
 			ruleValidatorsAgree(c)
 			ruleConverters(c)
 			ruleKeepCache(c)
